@@ -113,6 +113,204 @@ func checkC04(c *Ctx, r *Report) {
 	c04b(c, r)
 	c04c(c, r)
 	c04d(c, r)
+	c04e(c, r)
+}
+
+// c04e — a cell with three or more candidate actions: the property's pairwise rules are applied as a LEFT FOLD,
+// winner(winner(a1, a2), a3) …: every resolution compares the running winner with the next unconsumed candidate,
+// the default rule is asked about the same pair, the result becomes the new running winner, and the cell ends up
+// holding the last winner. Two forms are recognised: the sliding window (`res[1] = act; res = res[1:]`, exit on
+// len(res) == 1 storing res) and the indexed loop over list[1:] with a winner variable initialised to list[0].
+func c04e(c *Ctx, r *Report) {
+	const clause = "C04.e"
+	f := c.need(r, clause, "LALR", "LALR1", "CheckAndResolveConflict")
+	if f == nil {
+		return
+	}
+	info := f.Pkg.TypesInfo
+	key := f.Name + "/fold-keeps-the-running-winner"
+	fold, rcall := findFoldLoop(info, f.Decl)
+	if fold == nil || len(rcall.Args) != 2 {
+		r.Undecided(clause, "R4 DECISION-TABLE", key, c.pos(f.Decl.Pos()), "no loop calls ResolveConflict(a, b): candidates of a cell are not folded pairwise")
+		return
+	}
+	defs := newDefs(info)
+	defs.scan(f.Decl.Body)
+	// resolve a single-definition local to its defining expression (prev := list[i-1])
+	resolve := func(e ast.Expr) ast.Expr {
+		for k := 0; k < 4; k++ {
+			o := identObj(info, unparen(e))
+			if o == nil || defs.count[o] != 1 || defs.single[o] == nil {
+				break
+			}
+			e = defs.single[o]
+		}
+		return unparen(e)
+	}
+	a0, a1 := resolve(rcall.Args[0]), resolve(rcall.Args[1])
+	pe := newPathEnum(info)
+	paths, err := pe.Enumerate(fold.Body.List)
+	if err != nil {
+		r.Undecided(clause, "R4 DECISION-TABLE", key, c.pos(fold.Pos()), err.Error())
+		return
+	}
+	rName, dName := "ResolveConflict", "UseDefaultResolveConflict"
+	isResult := func(t *Term) string { // "R" = result0 of ResolveConflict, "D" = UseDefault…, "" otherwise
+		if t == nil {
+			return ""
+		}
+		s := t.String()
+		switch {
+		case strings.HasPrefix(s, "result0(") && strings.Contains(s, rName+"(") && !strings.Contains(s, dName):
+			return "R"
+		case t.Op == "call" && strings.HasSuffix(t.Name, dName):
+			return "D"
+		}
+		return ""
+	}
+	bad := ""
+	form := ""
+	// the default rule is asked about the same pair
+	ast.Inspect(fold.Body, func(n ast.Node) bool {
+		if call, ok := n.(*ast.CallExpr); ok {
+			if fn := callee(info, call); fn != nil && strings.HasSuffix(shortFuncName(fn), "LALR1)."+dName) && len(call.Args) == 2 {
+				if exprString(resolve(call.Args[0])) != exprString(a0) || exprString(resolve(call.Args[1])) != exprString(a1) {
+					bad = fmt.Sprintf("the default rule is asked about (%s, %s) but precedence about (%s, %s)", exprString(resolve(call.Args[0])), exprString(resolve(call.Args[1])), exprString(a0), exprString(a1))
+				}
+			}
+		}
+		return true
+	})
+	ix0, isIx0 := a0.(*ast.IndexExpr)
+	ix1, isIx1 := a1.(*ast.IndexExpr)
+	switch {
+	case isIx0 && isIx1 && identObj(info, ix0.X) != nil && identObj(info, ix0.X) == identObj(info, ix1.X) && fold.Cond == nil:
+		// sliding window over S
+		form = "sliding window"
+		S := identObj(info, ix0.X)
+		if v, ok := constInt(info, ix0.Index); !ok || v != 0 {
+			bad = "the first operand is not the window's first element"
+		}
+		if v, ok := constInt(info, ix1.Index); !ok || v != 1 {
+			bad = "the second operand is not the window's second element"
+		}
+		exits := 0
+		for _, p := range paths {
+			if p.Kind == "break" || p.Kind == "return" {
+				exits++
+				okCond, okStore := false, false
+				for _, cd := range p.Conds {
+					if cd.Pol && cd.Atom.String() == "(len("+S.Name()+") == 1)" {
+						okCond = true
+					}
+				}
+				for _, e := range p.Effects {
+					if e.Kind == "store" && e.LHS.Op == "index" && e.Term.String() == S.Name() {
+						okStore = true
+					}
+				}
+				if !okCond || !okStore {
+					bad = "the loop can end without the cell receiving the one remaining candidate (exit must be `len(window) == 1` storing the window)"
+				}
+				continue
+			}
+			stored := ""
+			for _, e := range p.Effects {
+				if e.Kind == "store" && e.LHS.String() == S.Name()+"[1]" {
+					stored = isResult(e.Term)
+				}
+			}
+			if stored == "" {
+				bad = "an iteration does not put the pair's winner into the window's second slot"
+			}
+			if t := p.Env[S]; t == nil || t.String() != S.Name()+"[1:]" {
+				bad = "an iteration does not advance the window by exactly one candidate"
+			}
+		}
+		if exits == 0 {
+			bad = "the fold loop has no exit"
+		}
+		// the window starts as the whole candidate list
+		if bad == "" {
+			n, okInit := 0, false
+			ast.Inspect(f.Decl.Body, func(m ast.Node) bool {
+				if as, ok := m.(*ast.AssignStmt); ok && len(as.Lhs) == 1 && len(as.Rhs) == 1 && identObj(info, as.Lhs[0]) == S {
+					n++
+					if as.Pos() < fold.Pos() {
+						if id, ok := unparen(as.Rhs[0]).(*ast.Ident); ok && id != nil {
+							okInit = true
+						}
+					}
+				}
+				return true
+			})
+			if n != 2 || !okInit {
+				bad = "the window is not initialised once to the whole candidate list"
+			}
+		}
+	case isIx1 && identObj(info, a0) != nil:
+		// indexed loop with a winner variable
+		form = "indexed loop with a winner variable"
+		W := identObj(info, a0)
+		L := identObj(info, ix1.X)
+		iv := identObj(info, ix1.Index)
+		full := false
+		if init, ok := fold.Init.(*ast.AssignStmt); ok && len(init.Lhs) == 1 && identObj(info, init.Lhs[0]) == iv && iv != nil {
+			if v, ok := constInt(info, init.Rhs[0]); ok && v == 1 {
+				if be, ok := fold.Cond.(*ast.BinaryExpr); ok && be.Op == token.LSS && identObj(info, be.X) == iv {
+					if call, ok := be.Y.(*ast.CallExpr); ok && builtinName(info, call) == "len" && identObj(info, call.Args[0]) == L {
+						if post, ok := fold.Post.(*ast.IncDecStmt); ok && post.Tok == token.INC && identObj(info, post.X) == iv {
+							full = true
+						}
+					}
+				}
+			}
+		}
+		if !full || L == nil {
+			bad = "the loop does not visit candidates 1 … len(list)-1 one by one"
+		}
+		for _, p := range paths {
+			if p.Kind != "fall" && p.Kind != "continue" {
+				bad = "the fold can stop before the last candidate"
+				continue
+			}
+			if isResult(p.Env[W]) == "" {
+				bad = "an iteration does not make the pair's winner the new running winner"
+			}
+		}
+		// W starts as list[0]; after the loop the cell receives W
+		okInit, okOut := false, false
+		ast.Inspect(f.Decl.Body, func(m ast.Node) bool {
+			as, ok := m.(*ast.AssignStmt)
+			if !ok || len(as.Lhs) != 1 || len(as.Rhs) != 1 {
+				return true
+			}
+			if identObj(info, as.Lhs[0]) == W && as.Pos() < fold.Pos() {
+				if ix, ok := unparen(as.Rhs[0]).(*ast.IndexExpr); ok && identObj(info, ix.X) == L {
+					if v, ok := constInt(info, ix.Index); ok && v == 0 {
+						okInit = true
+					}
+				}
+			}
+			if _, isIdx := as.Lhs[0].(*ast.IndexExpr); isIdx && as.Pos() > fold.End() {
+				if cl, ok := unparen(as.Rhs[0]).(*ast.CompositeLit); ok && len(cl.Elts) == 1 && identObj(info, cl.Elts[0]) == W {
+					okOut = true
+				}
+			}
+			return true
+		})
+		if !okInit {
+			bad = "the running winner does not start as the first candidate"
+		}
+		if !okOut {
+			bad = "the cell does not receive the final winner after the loop"
+		}
+	default:
+		bad = fmt.Sprintf("ResolveConflict is applied to (%s, %s): neither (window[0], window[1]) of a sliding window nor (running winner, list[i]) — with three candidates some candidate is never compared with the winner of the others", exprString(a0), exprString(a1))
+	}
+	r.Check(bad == "", clause, "R4 DECISION-TABLE", key, c.pos(fold.Pos()),
+		"cells with more than two candidates are folded left to right ("+form+"): each step compares the running winner with the next candidate, precedence and default rule see the same pair, the result replaces the winner, the cell keeps the last one",
+		bad)
 }
 
 func c04a(c *Ctx, r *Report) {
